@@ -33,8 +33,10 @@ impl WalRecuperator {
 
     /// Runs the recovery
     pub(crate) fn run_recovery(&mut self, analysis: &AnalysisResult) -> RuntimeResult<()> {
-        self.run_undo(&analysis)?;
+        // Redo first: an unfinished transaction may have touched a table whose creation is only in
+        // the log, and undoing it needs that table to exist again.
         self.run_redo(&analysis)?;
+        self.run_undo(&analysis)?;
 
         Ok(())
     }
